@@ -8,7 +8,8 @@
    output (stdout):     H <n>
                         <op> <ret> root=<id> n=<count> | <id>:<left>,<right>,<parent>,<colour> ...
    Nodes are listed in in-order (walk of left/right pointers from root->node); 0 is the null pointer;
-   colour is bit 0 of parent_ (0 red, 1 black); parent is a_rbt_parent().  Unless argv[1] is "full",
+   colour is bit 0 of parent_ (0 red, 1 black; the field `color` when built with A_SIZE_POINTER <= 1);
+   parent is a_rbt_parent().  Unless argv[1] is "full",
    a node is listed only when its record differs from the one printed last for the same id in this
    case (delta dump), so a line is short while every op is still compared on the whole structure.
    A node reached twice in one walk prints "CYCLE" and ends the walk (only possible if rbt.c is broken). */
@@ -85,7 +86,11 @@ static void walk(a_rbt_node *n)
     rec[0] = idof(n->left);
     rec[1] = idof(n->right);
     rec[2] = idof(a_rbt_parent(n));
+#if defined(A_SIZE_POINTER) && (A_SIZE_POINTER + 0 > 1)
     rec[3] = (int)(n->parent_ & 1);
+#else /* the configuration with separate parent / color fields */
+    rec[3] = (int)n->color;
+#endif
     if (full || !it->has_last || memcmp(rec, it->last, sizeof(rec)) != 0)
     {
         printf(" %d:%d,%d,%d,%d", it->id, rec[0], rec[1], rec[2], rec[3]);
